@@ -17,8 +17,9 @@ RULE = ("write_setting(id, v) then read_setting(id) for EVERY setting of ET (eco
         "(three- and single-phase) over RTU/UDP and Modbus/TCP and the register-addressed settings of ES (eco-mode "
         "groups and switches over AA55 and, for eco-mode-v2 firmware, Modbus), against a stateful peer with arbitrary "
         "prior register contents.  Values: for 1- and 2-byte types the multiples of the resolution over the whole "
-        "encodable domain (thorough: ALL of them for every setting; quick: all boundaries plus 128 spread values per "
-        "setting and 2048 for one representative setting per type), excluding values whose encoding is the type's "
+        "encodable domain (thorough: ALL 65536 of them for one representative setting per type and configuration and 4096 spread "
+        "values for every other setting; quick: all boundaries plus 128 spread values per setting and 2048 for the "
+        "representative ones), excluding values whose encoding is the type's "
         "'no value' sentinel (Integer 65535, Long 0xFFFFFFFF: they read back as 0 - counted in the evidence); "
         "boundary + seeded values for 4/6/8/12-byte types (timestamps 2000-2255, eco groups built from valid "
         "fields).  Every fourth case runs under benign faults (lost request / lost answer within the retry budget): a "
@@ -43,10 +44,10 @@ CONFIGS = [("ET", "v2", "udp"), ("ET", "v2", "tcp"), ("ET", "v1", "udp"), ("DT",
            ("ES", "v1", "udp"), ("ES", "v2", "udp")]
 SLOTS = {"ET": 112, "DT": 16, "ES": 8}
 VALUES_PER_CASE = 64
-CASES_PER_SLOT = {"quick": 2, "thorough": 1024}
+CASES_PER_SLOT = {"quick": 2, "thorough": 64}
 REPRESENTATIVE = {"grid_export_limit", "battery_charge_voltage", "battery_charge_current", "power_factor",
                   "eco_mode_1_switch", "modbus_baud_rate", "time", "eco_mode_1", "peak_shaving_mode", "eco_mode_2"}
-EXTRA_REP_CASES = {"quick": 32, "thorough": 0}
+EXTRA_REP_CASES = {"quick": 32, "thorough": 960}
 _SPACE = {}
 
 
